@@ -306,6 +306,30 @@ class Interp:
         self.conds.append("%s is %s" % (desc, ans))
         return ans
 
+    def known_positive(self, d):
+        """Is polynomial d known to be > 0 on this path (a positive constant, a sqrt/norm atom compared above a positive
+        constant, or directly decided)?"""
+        c = d.const_value()
+        if c is not None:
+            return c > 0
+        key, orient = SignFacts.canon(d)
+        signs = self.facts.get(key)
+        if signs is not None and {x * orient for x in signs} <= {1}:
+            return True
+        for k, sg in self.facts.items():
+            q = Poly(dict(k))
+            for sign in (1, -1):
+                r = q.scale(sign) - d
+                c0 = r.const_value()
+                if c0 is None:
+                    continue
+                s2 = {x * sign for x in sg}          # signs of sign*q ; d = sign*q - c0
+                if s2 <= {0, 1} and c0 < 0:
+                    return True
+                if s2 <= {1} and c0 <= 0:
+                    return True
+        return False
+
     def known_zero(self, d):
         """Is polynomial d known to vanish on this path (identically, or by an equality decision taken earlier)?"""
         if d.is_zero():
@@ -778,6 +802,16 @@ class Interp:
         if isinstance(l, Poly) and isinstance(r, Poly):
             d = l - r
             return self.decide_sign(d, SIGNS_OF[type(op)], "%s %s 0" % (d.short(80), OPNAME[type(op)]))
+        if (isinstance(l, Quot) or isinstance(r, Quot)) and isinstance(l, (Quot, Poly)) and isinstance(r, (Quot, Poly)) and type(op) in SIGNS_OF:
+            q = self.quot_arith(ast.Sub, l, r, node)
+            if isinstance(q.num, Poly) and isinstance(q.den, Poly):
+                if self.known_positive(q.den):
+                    return self.decide_sign(q.num, SIGNS_OF[type(op)], "%s %s 0" % (q.num.short(80), OPNAME[type(op)]))
+                if self.known_positive(-q.den):
+                    return self.decide_sign(-q.num, SIGNS_OF[type(op)], "%s %s 0" % ((-q.num).short(80), OPNAME[type(op)]))
+                # sign of the denominator unknown: decide the sign of num*den instead (same sign as the quotient where defined)
+                pr = q.num * q.den
+                return self.decide_sign(pr, SIGNS_OF[type(op)], "(%s)/(%s) %s 0" % (q.num.short(40), q.den.short(40), OPNAME[type(op)]))
         if isinstance(op, (ast.Eq, ast.NotEq)):
             e = self.equal(l, r, node)
             return e if isinstance(op, ast.Eq) else not e
@@ -821,6 +855,8 @@ class Interp:
                 return self.call_method(a, name, [b])
         if op is ast.MatMult:
             return self.dot(a, b, n)
+        if isinstance(a, bool) and isinstance(b, bool) and op in (ast.BitXor, ast.BitAnd, ast.BitOr):
+            return {ast.BitXor: a ^ b, ast.BitAnd: a & b, ast.BitOr: a | b}[op]
         if isinstance(a, str) and op is ast.Add and isinstance(b, str):
             return a + b
         if isinstance(a, tuple) and isinstance(b, tuple) and op is ast.Add:
@@ -907,6 +943,8 @@ class Interp:
         if op is ast.Div:
             d = b.const_value()
             if d is None:
+                if a.is_zero() and (self.known_positive(b) or self.known_positive(-b)):
+                    return Poly()
                 return Quot(a, b)
             if d == 0:
                 raise self.unsupported("division by constant zero", node)
@@ -1743,7 +1781,10 @@ class Interp:
                 return self.scalar(args[0], n)
             return self.to_arr(args[0], n).T()
         if name == "linalg.norm":
-            a = self.to_arr(args[0], n)
+            if isinstance(args[0], (Poly, Wrapped)):
+                a = Arr([self.scalar(args[0], n)], 1)
+            else:
+                a = self.to_arr(args[0], n)
             if len(args) > 1 or kw:
                 raise self.unsupported("np.linalg.norm with ord/axis", n)
             sq = sum((x * x for x in a.flat()), Poly())
